@@ -24,7 +24,7 @@ namespace TlxVerif.C11.BarS
 open TlxVerif.Sched (StepOut)
 
 inductive Pc
-  | none | start | finished
+  | start | finished
   | mSpawn (i : Nat) | mJoin (i : Nat)
   | loadStep                         -- this_step = step_.load()
   | fetchAdd (ts : Nat)              -- waiting_.fetch_add(1)
@@ -46,21 +46,23 @@ structure State where
   yielding : Bool
   waiting : Nat := 0
   step : Nat := 0
+  spawned : Nat := 0
   thr : List Thread
   actions : Nat := 0
   deriving Repr
 
 def init (n gens : Nat) (yielding : Bool) : State :=
-  { n := n, gens := gens, yielding := yielding, thr := { pc := .start } :: List.replicate n { pc := .none } }
+  { n := n, gens := gens, yielding := yielding, thr := { pc := .start } :: List.replicate n { pc := .start } }
 
-def pcOf (s : State) (t : Nat) : Pc := (s.thr[t]?.map (·.pc)).getD .none
+def pcOf (s : State) (t : Nat) : Pc := (s.thr[t]?.map (·.pc)).getD .finished
 def setPc (s : State) (t : Nat) (pc : Pc) : State :=
   { s with thr := s.thr.modify t fun th => { th with pc := pc } }
 def ev (t : Nat) (e : String) : String := s!"{t}:{e}"
 
 def enabled (s : State) (t : Nat) : Bool :=
   match pcOf s t with
-  | .none | .finished => false
+  | .finished => false
+  | .start => t ≤ s.spawned
   | .spin ts seen => !seen || s.step != ts
   | .mJoin i => pcOf s (i + 1) == .finished
   | _ => true
@@ -68,7 +70,7 @@ def enabled (s : State) (t : Nat) : Bool :=
 def spurCand (_s : State) (_t : Nat) : Bool := false
 
 def unfinished (s : State) (t : Nat) : Bool :=
-  t < s.thr.length && pcOf s t != .none && pcOf s t != .finished
+  t < s.thr.length && t ≤ s.spawned && pcOf s t != .finished
 
 def out (s : State) (evs : List String) : Option (StepOut State) := some { st := s, evs := evs }
 
@@ -82,13 +84,13 @@ def step (s : State) (t : Nat) (_c : Nat) : Option (StepOut State) :=
   | none => none
   | some th =>
   match th.pc with
-  | .none | .finished => none
+  | .finished => none
   | .start =>
-    if t = 0 then out (setPc s t (.mSpawn 0)) [ev t "start"]
+    if t > s.spawned then none
+    else if t = 0 then out (setPc s t (.mSpawn 0)) [ev t "start"]
     else out (setPc s t (if s.gens = 0 then .finished else .loadStep)) [ev t "start"]
   | .mSpawn i =>
-    let s1 := setPc s (i + 1) .start
-    out (setPc s1 t (if i + 1 < s.n then .mSpawn (i + 1) else .mJoin 0)) [ev t s!"spawn({i + 1})"]
+    out (setPc { s with spawned := i + 1 } t (if i + 1 < s.n then .mSpawn (i + 1) else .mJoin 0)) [ev t s!"spawn({i + 1})"]
   | .mJoin i =>
     if pcOf s (i + 1) == .finished then
       if i + 1 < s.n then out (setPc s t (.mJoin (i + 1))) [ev t s!"join({i + 1})"]
